@@ -3,8 +3,9 @@
    Model/QasmImport.v: the importer after tokenisation (tied to qasm.py by the correspondence check);
    Gen/Qasm.v: the importer's tables, regenerated from qasm.py on every run.
    Quantification over parameter values: every phase ring R and atoms A (u = e^{i pi/16}, z_j = e^{i theta_j/4}). *)
+From Coq Require Import Lia.
 From QV Require Import Model.QasmImport Spec.QasmSem Found.Circ Gen.Gates Gen.Qasm.
-From QV Require Import Proofs.QasmShortcut Proofs.QasmIf Proofs.QasmSubst.
+From QV Require Import Proofs.QasmShortcut Proofs.QasmIf Proofs.QasmSubst Proofs.QasmRegs Proofs.QasmRejects.
 Local Open Scope string_scope.
 Local Open Scope nat_scope.
 Local Open Scope list_scope.
@@ -54,7 +55,85 @@ Theorem import_rejects_unfixed_refuted : exists L qs out,
 Proof. exact stale_index_refuted. Qed.
 Print Assumptions import_rejects_unfixed_refuted.
 
+(* Layer B, register arguments.  The importer's resolution of indexed / whole-register arguments with broadcast by zip is
+   the standard's rule (one common register size n, n statements), for every declaration list and argument list. *)
+Theorem import_regs_ok : forall L qs, (forall r off n, sassoc r L = Some (off, n) -> 0 < n) ->
+  regs_gate true L qs = match omap (resolve L) qs with Some rs => broadcast rs | None => None end.
+Proof. exact regs_ok. Qed.
+Print Assumptions import_regs_ok.
+
+(* Layer D, import_rejects.  Whatever else a program contains, ONE statement of a malformation class named by the property
+   makes the importer reject it.  (bad_arg = undeclared register or index out of range; app_of o = the gate application
+   of an operation, guarded by if or not.) *)
+Theorem import_rejects_reset : forall (A : VAlg) p q, In (OReset q) (p_ops p) -> import_prog A p = None.
+Proof. exact rejects_reset. Qed.
+Print Assumptions import_rejects_reset.
+Theorem import_rejects_opaque : forall (A : VAlg) p n ps qs, In (GOpaque n ps qs) (p_gates p) -> import_prog A p = None.
+Proof. exact rejects_opaque. Qed.
+Print Assumptions import_rejects_opaque.
+Theorem import_rejects_undeclared_gate : forall (A : VAlg) p o g args qs,
+  In o (p_ops p) -> app_of o = Some (g, args, qs) -> sassoc g sig0 = None -> (forall d, ~ In (GDef g d) (p_gates p)) ->
+  import_prog A p = None.
+Proof. exact rejects_undeclared_gate_name. Qed.
+Print Assumptions import_rejects_undeclared_gate.
+Theorem import_rejects_bad_qubit_argument : forall (A : VAlg) p o g args qs a,
+  In o (p_ops p) -> app_of o = Some (g, args, qs) -> In a qs -> bad_arg (layout 0 (p_qregs p)) a -> import_prog A p = None.
+Proof. exact rejects_bad_qubit_argument. Qed.
+Print Assumptions import_rejects_bad_qubit_argument.
+Theorem import_rejects_param_arity : forall (A : VAlg) p o g args qs,
+  In o (p_ops p) -> app_of o = Some (g, args, qs) ->
+  (forall Sg G np nq, init_gates sig0 [] (p_gates p) = Some (Sg, G) -> sassoc g Sg = Some (np, nq) -> length args <> np) ->
+  import_prog A p = None.
+Proof. exact rejects_param_arity. Qed.
+Print Assumptions import_rejects_param_arity.
+(* repeated qubit, or wrong number of qubit arguments, in some instance of a (broadcast) statement *)
+Theorem import_rejects_bad_instance : forall (A : VAlg) p o g args qs,
+  In o (p_ops p) -> app_of o = Some (g, args, qs) ->
+  (forall Sg G np nq reg_set, init_gates sig0 [] (p_gates p) = Some (Sg, G) -> sassoc g Sg = Some (np, nq) ->
+      regs_gate true (layout 0 (p_qregs p)) qs = Some reg_set -> exists regs, In regs reg_set /\ (length regs <> nq \/ nnodup regs = false)) ->
+  import_prog A p = None.
+Proof. exact rejects_bad_instance. Qed.
+Print Assumptions import_rejects_bad_instance.
+(* power operator, function call, unknown identifier in a parameter expression *)
+Theorem import_rejects_bad_expression : forall (A : VAlg) p o g args qs e,
+  In o (p_ops p) -> app_of o = Some (g, args, qs) -> In e args -> (plain e = false \/ ids e <> []) -> import_prog A p = None.
+Proof. exact rejects_bad_expression. Qed.
+Print Assumptions import_rejects_bad_expression.
+Theorem import_rejects_bad_measure : forall (A : VAlg) p q c,
+  In (OMeasure q c) (p_ops p) -> (bad_arg (layout 0 (p_qregs p)) q \/ bad_arg (layout 0 (p_cregs p)) c) -> import_prog A p = None.
+Proof. exact rejects_bad_measure. Qed.
+Print Assumptions import_rejects_bad_measure.
+Theorem import_rejects_undeclared_creg_if : forall (A : VAlg) p c k g args qs,
+  In (OIf c k g args qs) (p_ops p) -> sassoc c (layout 0 (p_cregs p)) = None -> import_prog A p = None.
+Proof. exact rejects_undeclared_creg_if. Qed.
+Print Assumptions import_rejects_undeclared_creg_if.
+Theorem import_rejects_bad_barrier : forall (A : VAlg) p qs a,
+  In (OBarrier qs) (p_ops p) -> In a qs -> bad_arg (layout 0 (p_qregs p)) a -> import_prog A p = None.
+Proof. exact rejects_bad_barrier. Qed.
+Print Assumptions import_rejects_bad_barrier.
+(* gate bodies: repeated qubit, qubit that is not a formal, bad parameter expression *)
+Theorem import_rejects_bad_body : forall (A : VAlg) p n d h args hq,
+  In (GDef n d) (p_gates p) -> In (BCall h args hq) (gd_body d) ->
+  (snodup hq = false \/ subset hq (gd_qubits d) = false \/ exists e, In e args /\ check_expr (gd_params d) e = false) ->
+  import_prog A p = None.
+Proof. exact rejects_bad_body. Qed.
+Print Assumptions import_rejects_bad_body.
+
+(* import_sound, PARTIAL.  Full statement: for every well-formed program p (wf lib_sigs p = true), import_prog p = Some c and
+   c has the branch semantics of spec_prog p up to one phase per measurement record.  Proved: its ingredients for all inputs -
+   shortcut_ok (every library-level gate), import_regs_ok (arguments and broadcast), import_if_ok / import_if_never
+   (classical conditions), the rejection theorems above.  NOT proved: the composition over whole programs (user-gate
+   expansion by substitution against the standard's environment semantics, measurement mapping, phase bookkeeping);
+   this is tied by the correspondence check (model = real code, exactly) and the independent evaluator (real code = standard). *)
+
 (* non-vacuity *)
+Example rejects_instance :
+  let p := mkProg [("q", 2)] [] [] [OApp "cx" [] [AIdx "q" 0; AIdx "q" 5]] in
+  bad_arg (layout 0 (p_qregs p)) (AIdx "q" 5) /\ import_prog TermAlg p = None /\
+  import_prog TermAlg (mkProg [("q", 2)] [] [] [OApp "cx" [] [AIdx "q" 0; AIdx "q" 1]]) <> None.
+Proof. split; [vm_compute; lia|]. split; [vm_compute; reflexivity| vm_compute; discriminate]. Qed.
+Example regs_ok_instance : regs_gate true [("q", (0, 2)); ("r", (2, 2))] [AReg "q"; AIdx "r" 1] = Some [[0; 3]; [1; 3]].
+Proof. vm_compute. reflexivity. Qed.
 Example shortcut_ok_ccx : exists c1 c2, imp_sym "ccx" = Some c1 /\ std_with_phase "ccx" = Some c2 /\ length c1 = 1 /\ length c2 = 16
   /\ smem "ccx" predefined = true /\ sassoc "ccx" sig0 = Some (0, 3).
 Proof. eexists. eexists. repeat split; vm_compute; reflexivity. Qed.
